@@ -38,7 +38,7 @@ class Family:
             for x in range(-2, 11):
                 out.append((l, x, l, x))
         rnd = random.Random(C.seed() * 7919 + 18)
-        n = 2000 if tier == "quick" else 10000
+        n = 2000 if tier == "quick" else 100000
         for _ in range(n):
             k = rnd.randint(0, 12)
             pool = [rnd.choice([rnd.random() * 10, float(rnd.randint(0, 6)), rnd.random()]) for _ in range(max(1, k // 2))]
@@ -62,6 +62,35 @@ class Family:
             x = rnd.choice(l) + rnd.choice([0.0, -0.25, 0.25, -0.5, 1e-3, -1e-3, 1e-6, -1e-6])
             rm = rank_map(l + [x])
             out.append((l, x, [rm[v] for v in l], rm[x]))
+        # values where float arithmetic on the probe would go wrong: integers beyond 2**53 (nanosecond stamps),
+        # infinities, the largest finite float
+        big = [2 ** 53 - 1, 2 ** 53, 2 ** 53 + 1, 2 ** 53 + 2, 2 ** 60 + 1, 2 ** 63 - 1, 2 ** 63]
+        for l in sorted_lists(big, 3):
+            for x in big + [0, 2 ** 64]:
+                rm = rank_map(l + [x])
+                out.append((l, x, [rm[v] for v in l], rm[x]))
+        inf = float("inf")
+        fl = [-inf, -1.7976931348623157e308, 0.0, 5e-324, 1.7976931348623157e308, inf]
+        for l in sorted_lists(fl, 3):
+            for x in fl:
+                rm = rank_map(l + [x])
+                out.append((l, x, [rm[v] for v in l], rm[x]))
+        # very long, roughly evenly spaced lists with bursts of equal values (thousands of points, several per
+        # timestamp): probes at, just below and just above values sitting at many offsets
+        for j in range(3 if tier == "quick" and not search else 12):
+            k = rnd.randint(2050, 3300)
+            burst = rnd.choice([1, 17, 18, 33, 40])
+            l = []
+            v = 1000.0
+            while len(l) < k:
+                l += [v] * rnd.choice([1, 1, burst])
+                v += 1.0
+            l = l[:k]
+            probes = [l[rnd.randrange(k)] + d for d in (0.0, 0.0, 0.0, -0.5, 0.5) for _ in range(5)] + [l[0], l[-1], l[0] - 1, l[-1] + 1]
+            rm = rank_map(l + probes)
+            li = [rm[v] for v in l]
+            for x in probes:
+                out.append((l, x, li, rm[x]))
         return out
 
     def run(self, tier, model_ok, search):
@@ -91,7 +120,7 @@ class Family:
                     nontrivial += 1
                 if a != s:
                     res.findings.append(Finding(
-                        "impl-vs-spec", f"{fn}({l}, {x}) = {a}, documented {s}",
+                        "impl-vs-spec", f"{fn}({l if len(l) < 40 else str(l[:6])[:-1] + f', ... {len(l)} values]'}, {x}) = {a}, documented {s}",
                         dict(fn=fn, sorted_list=l, probe=x, observed=a, expected=s)))
                 elif gen is not None and gen[k].split("=", 1)[1] != a:
                     res.findings.append(Finding(
